@@ -51,6 +51,7 @@ type context struct {
 	reqMsg        *protocol.Message // message for transmit
 	repMsg        *protocol.Message // received reply
 	sendMsg       *protocol.Message // messaging waiting for send
+	sendAbort     *protocol.Message // pending send abandoned by cancel
 	lastPipe      *pipe             // last pipe used for transmit
 	reqID         uint32            // request ID
 	receiveWait   bool              // true if a thread is blocked receiving
@@ -236,6 +237,9 @@ func (c *context) cancel() {
 		c.receiveTimer.Stop()
 		c.receiveTimer = nil
 	}
+	// A Send still waiting to be scheduled has lost its place in the
+	// queue and its timer: it must give up too.
+	c.sendAbort = c.sendMsg
 	c.cond.Broadcast()
 }
 
@@ -261,6 +265,7 @@ func (c *context) SendMsg(m *protocol.Message) error {
 	}
 	c.cancel() // this cancels any pending send or receive calls
 	c.cancelSend()
+	c.sendAbort = nil
 
 	c.reqID = id
 	c.queued = true
@@ -295,7 +300,7 @@ func (c *context) SendMsg(m *protocol.Message) error {
 	// It is responsible for providing the blocking semantic and
 	// ultimately back-pressure.  Note that we will "continue" if
 	// sending is canceled by a subsequent send.
-	for c.sendMsg == m && !expired && !c.closed && !(c.failNoPeers && len(s.pipes) == 0) {
+	for c.sendMsg == m && c.sendAbort != m && !expired && !c.closed && !(c.failNoPeers && len(s.pipes) == 0) {
 		c.cond.Wait()
 	}
 	if c.sendMsg == m {
@@ -307,6 +312,9 @@ func (c *context) SendMsg(m *protocol.Message) error {
 		}
 		if c.failNoPeers && len(s.pipes) == 0 {
 			return protocol.ErrNoPeers
+		}
+		if !expired {
+			return protocol.ErrCanceled
 		}
 		return protocol.ErrSendTimeout
 	}
